@@ -178,7 +178,10 @@ def _derive_no_clone(m):
 # "returns an equal value" (GLUE): Verus gives derived Clone impls of non-Copy types no spec.  Type level, so that no
 # `.clone()` call site has to be recognised by the name of a local variable.
 DERIVE_NO_CLONE = sub("R13-derive-clone", r"#\[derive\(([^)]*)\)\]", _derive_no_clone, required=False)
-R3_WITNESS = sub("R3", r"&Witness::", "Witness::")
+# R3 is a syntax workaround only (Verus lacks `&Pat` reference patterns): where the text has no `&Witness::` pattern (the
+# early return written as `if x.stack == Witness::Impossible`) there is nothing to rewrite and the text is verified as it is;
+# a reference pattern of another shape is rejected by Verus (UNDECIDED), never mis-verified.  Hence optional.
+R3_WITNESS = sub("R3", r"&Witness::", "Witness::", required=False)
 R4_EXTEND = lit("R4", "a.extend(b);", "vec_extend(&mut a, b);")
 R7_LT = sub("R7-witness-lt", r"\b(\w+)\.stack < (\w+)\.stack\b", r"witness_lt(&\1.stack, &\2.stack)")
 
